@@ -37,6 +37,18 @@ CLAIMED = {
    "Structural necessary conditions: all 4x256 base-encoding table entries evaluated by the type checker and compared with references built from golang.org/x/text code pages and hand-written ISO 32000 Annex D tables (documented accept sets), anchor entries of the symbolic fonts, name->object->table dispatch, decode priority and NFC by dominance on the SSA of Font.DecodeString, no unvalidated raw byte->string conversion in the text-decoding functions, range destinations decoded by the multi-unit decoder unless proven single-unit, and a bit-width rule for shifts performed before widening.",
    "Trusted: golang.org/x/text/encoding/charmap data (module cache, independent of the repo), the hand-written Annex D tables; CMap parsing over formatting policies and code-space width selection are not decided.",
    "exhaustive constant-table comparison + guard dominance + type-level bit-width dataflow", "DESIGN.md §4 C07"),
+ "C11": ("other",
+   "Structural necessary conditions of 'exclusion only deletes repeated marginal text': the fragment filter is a pure forward subsequence filter (append of unmodified input elements only), every deleting return is dominated by page membership, the margin-band comparison and (character-level or text match), every detection in the root package runs on collectAllPages() under the exclude options and every filter call uses that detection, candidates come only from the band with trimmed text, the occurrence threshold counts distinct pages, and the filter compares trimmed text like detection does.",
+   "Trusted: go/ssa dominance; thresholds, tolerances and which text repeats are run-time data and not decided; DOCX/ODT/PPTX part-based exclusion is not covered.",
+   "SSA shape proof of a pure filter + must-cross-edge guards + provenance of call arguments", "DESIGN.md §4 C11"),
+ "C13": ("other",
+   "Structural necessary conditions: an interprocedural provenance analysis of every bound of every string slice in package rag (0, len, strings.Index results, indices whose byte was compared with ASCII constants, range keys, values snapped by a utf8.RuneStart loop, boundary-table positions, results of callees whose every return is such a value) so that raw size arithmetic can never cut a multi-byte character; the split loop's back edge carries a strictly shorter remainder; overlap is generated from the previous input chunk; the split search and the size test use the same token ratio.",
+   "Trusted: go/ssa; Boundary.Position values are assumed to be element boundaries; slices that are only measured/compared are allow-listed by function with a reason; the numeric size bound is not decided.",
+   "interprocedural provenance (def-use) of slice bounds + must-cross-edge facts + loop-shape progress argument", "DESIGN.md §4 C13"),
+ "C15": ("other",
+   "Structural necessary conditions of structurally lossless Markdown: a forward dataflow over each of the table writers tracks which of '|' and newline have been escaped on every cell text (meet over phis) and requires both at every sink (builder write or concatenation), helper escapers are checked for both characters; each strings.Repeat(\"#\", n) in the docx/odt/rag writers has n proven within 1..6 at the call by edge facts through the clamp phis, with the MaxHeadingLevel and 6 clamps applied after the offset; DOCX/ODT column counts are accumulated over all rows.",
+   "Trusted: go/ssa; helper escapers are recognised by the constants they handle; what a GFM parser reads back for merged cells and list nesting are not decided.",
+   "forward escape-state dataflow + interval facts through phi/edge conditions", "DESIGN.md §4 C15"),
 }
 
 NOT_BUILT = "rules for this property are not built yet in this revision of /verif (see DESIGN.md §4 for the plan)"
